@@ -5,7 +5,8 @@ reference evaluators.  Nothing in the evaluators imports dask.
 Argument terms (JSON-free python tuples, rebuilt from a seed in run_case)
 
     ("ref", j[, how])        reference to node j (how: None | "alias" (spec only) | an
-                             equal-but-not-identical spelling of the key: "float", "bool", "ntuple")
+                             equal-but-not-identical spelling of the key: "float", "bool", "ntuple", or,
+                             rarely and separately counted, "complex" / "npint" (numpy.int64))
     ("lit", v)               inert literal, emitted raw (never equal to a key, contains nothing active)
     ("q", v, how)            literal that must stay literal: how = "literal" -> (dask.core.literal(v),)
                              "quote" -> dask.core.quote(v), "data" -> DataNode(None, v) (spec only)
@@ -189,6 +190,21 @@ def eq_spellings(key):
     return out
 
 
+EXOTIC = ("complex", "npint")
+
+
+def exotic_spellings(key):
+    """hashable values equal to an int key whose type is none of int/float/str/tuple.  By the statement
+    ("hashable values equal to a key are references") they are references as well."""
+    out = []
+    if type(key) is int:
+        import numpy as np
+
+        out.append(("complex", complex(key)))
+        out.append(("npint", np.int64(key)))
+    return out
+
+
 # --------------------------------------------------------------------------
 # term utilities
 
@@ -224,7 +240,8 @@ def tags_of(a, out=None, top=True):
     out = set() if out is None else out
     t = a[0]
     if t == "ref":
-        out.add("ref" if len(a) < 3 or a[2] in (None, "alias") else "ref-equal-spelling")
+        how = a[2] if len(a) > 2 else None
+        out.add("ref" if how in (None, "alias") else ("ref-equal-spelling-exotic-type" if how in EXOTIC else "ref-equal-spelling"))
     elif t == "q":
         out.add("quoted")
     elif t == "lit":
@@ -254,6 +271,10 @@ def _value_tags(v, out, depth=0):
     if depth < 2:
         for x in (v.values() if isinstance(v, dict) else v):
             _value_tags(x, out, depth + 1)
+
+
+def has_exotic(a):
+    return (a[0] == "ref" and len(a) > 2 and a[2] in EXOTIC) or any(has_exotic(c) for c in children(a))
 
 
 def has_active(a):
@@ -333,6 +354,8 @@ class Prog:
         ('arg' / 'elsewhere', see dict_blocked) whose dicts are left unevaluated, i.e. mean their raw emission."""
         t = a[0]
         if t == "ref":
+            if frozen and "exotic" in frozen and len(a) > 2 and a[2] in EXOTIC:
+                return self.em(a)
             return val[a[1]]
         if t in ("lit", "q"):
             return a[1]
@@ -372,7 +395,8 @@ class Prog:
         out = set() if out is None else out
         t = a[0]
         if t == "ref":
-            out.add(a[1])
+            if not ("exotic" in frozen and len(a) > 2 and a[2] in EXOTIC):
+                out.add(a[1])
         elif t == "dict":
             if ("arg" if parent == "callarg" else "elsewhere") not in frozen:
                 for _, x in a[1]:
@@ -403,7 +427,7 @@ class Prog:
             k = keys[a[1]]
             how = a[2] if len(a) > 2 else None
             if how and how != "alias":
-                for nm, sp in eq_spellings(k):
+                for nm, sp in eq_spellings(k) + exotic_spellings(k):
                     if nm == how:
                         return sp
             return k
@@ -454,12 +478,10 @@ def raw_eval(dsk):
     """The statement's rules applied to the raw legacy graph (no dask code)."""
     memo = {}
     busy = set()
+    spelling = {k: k for k in dsk}
 
     def value(k):
-        for kk in dsk:                       # the graph's own spelling of the key
-            if kk == k:
-                k = kk
-                break
+        k = spelling[k]                      # the graph's own spelling of the key (hash/eq lookup)
         if k not in memo:
             if k in busy:
                 raise RecursionError("cycle")
@@ -595,7 +617,8 @@ INERT_SCALARS = ["a", "zz", 1000, 2000.5, None, True, False, "", b"by", -7, "k0x
 class Gen:
     """random terms for one program"""
 
-    def __init__(self, rng, keys, mode, dictactive=False):
+    def __init__(self, rng, keys, mode, dictactive=False, exotic=False):
+        self.exotic = exotic                # may int keys be spelled as complex / numpy.int64 values?
         self.rng = rng
         self.keys = keys
         self.mode = mode                    # "legacy" | "spec" | "specparse"
@@ -683,6 +706,8 @@ class Gen:
     def ref(self, j):
         rng = self.rng
         if self.mode == "legacy":
+            if self.exotic and type(self.keys[j]) is int and rng.random() < 0.5:
+                return ("ref", j, rng.choice(EXOTIC))
             sp = eq_spellings(self.keys[j])
             if sp and rng.random() < 0.15:
                 return ("ref", j, rng.choice(sp)[0])
@@ -716,15 +741,18 @@ class Gen:
                 out.append(("list", [("list", items), self.inert(depth + 1)]))
             elif r < 0.8:
                 out.append(("list", [("call", rng.choice(TAGGED), items)] + [self.ref(rng.choice(take))]))
-            elif r < 0.9:
+            elif r < (0.9 if self.mode == "legacy" else 0.94):
                 if self.mode != "legacy":
-                    kind = rng.choice(("tuple", "set", "ntuple", "dict", "dict"))
-                    if kind == "set" and not all(self.hashable.get(j, False) for j in take):
-                        kind = "tuple"
+                    kind = rng.choice(("tuple", "set", "set", "ntuple", "dict", "dict"))
                     if kind == "tuple":
                         out.append(("tuple", self.wrap(take, depth + 1, False)))
                     elif kind == "set":
-                        out.append(("set", "set", items + ([("lit", self.scalar())] if rng.random() < 0.5 else [])))
+                        if all(self.hashable.get(j, False) for j in take):
+                            els = items
+                        else:       # tagged calls return hashable values whatever they receive
+                            els = [("call", rng.choice(TAGGED), [x]) for x in items]
+                        hs = [v for v in self.scalars if v is not None]
+                        out.append(("set", "set", els + ([("lit", rng.choice(hs))] if rng.random() < 0.5 else [])))
                     elif kind == "ntuple":
                         if self.mode == "specparse":
                             out.append(("ntuple", "P2", [items[0], ("lit", self.scalar())]))
@@ -815,10 +843,10 @@ class Gen:
 FAMILIES = ("random", "random", "chain", "fan", "diamond", "aliaschain")
 
 
-def random_prog(seed, n, style, mode, dictactive=False, family="random"):
+def random_prog(seed, n, style, mode, dictactive=False, family="random", exotic=False):
     rng = random.Random(seed)
     keys = make_keys(style, n, perm_seed=rng.randrange(1, 10 ** 6))
-    gen = Gen(rng, keys, mode, dictactive)
+    gen = Gen(rng, keys, mode, dictactive, exotic)
     val = {}
     prog = Prog(keys, [])
     terms = prog.terms
